@@ -3752,3 +3752,360 @@ func TestVerifReplay(t *testing.T) {
 	}
 }
 ` + ""
+
+// ---------- C04 / C05 (mapdb, views, wrappers) ----------
+func init() { replayGens["c04"] = replayC04; replayGens["c05"] = replayC05 }
+
+// C04: differential test of a random view tree (plain, flush and debug wrappers mixed) against one ordered map keyed by
+// realm||key
+func replayC04(o *Obligation) (string, string, string, bool) {
+	if !strings.HasPrefix(o.Name, "mapdb.") && !strings.HasPrefix(o.Name, "flushkv.") && !strings.HasPrefix(o.Name, "debug.") {
+		return "", "", "", false
+	}
+	src := `package mapdb_test
+
+import (
+	"bytes"
+	"errors"
+	"math/rand"
+	"sort"
+	"testing"
+
+	"github.com/iotaledger/hive.go/kvstore"
+	"github.com/iotaledger/hive.go/kvstore/debug"
+	"github.com/iotaledger/hive.go/kvstore/flushkv"
+	"github.com/iotaledger/hive.go/kvstore/mapdb"
+)
+
+type rpView struct {
+	st    kvstore.KVStore
+	realm string
+}
+
+func TestVerifReplay(t *testing.T) {
+	fail := func(format string, a ...any) { t.Fatalf("REPLAY-VIOLATION "+format, a...) }
+	rng := rand.New(rand.NewSource(11))
+	alphabet := []string{"", "a", "b", "ab", "aa", "ba"}
+	for round := 0; round < 300; round++ {
+		root := mapdb.NewMapDB()
+		model := map[string][]byte{}
+		views := []rpView{{root, ""}}
+		wrap := func(s kvstore.KVStore) kvstore.KVStore {
+			switch rng.Intn(3) {
+			case 0:
+				return flushkv.New(s)
+			case 1:
+				return debug.New(s, func(debug.Command, ...[]byte) {})
+			}
+			return s
+		}
+		// a small tree of views through wrappers
+		for i := 0; i < 5; i++ {
+			parent := views[rng.Intn(len(views))]
+			r := alphabet[1+rng.Intn(len(alphabet)-1)]
+			base := wrap(parent.st)
+			if rng.Intn(2) == 0 {
+				v, err := base.WithRealm([]byte(r))
+				if err != nil {
+					fail("WithRealm(%q): %v", r, err)
+				}
+				views = append(views, rpView{v, r})
+			} else {
+				v, err := base.WithExtendedRealm([]byte(r))
+				if err != nil {
+					fail("WithExtendedRealm(%q): %v", r, err)
+				}
+				views = append(views, rpView{v, parent.realm + r})
+			}
+		}
+		for _, v := range views {
+			if string(v.st.Realm()) != v.realm {
+				fail("a view created for realm %q reports realm %q", v.realm, v.st.Realm())
+			}
+		}
+		desc := ""
+		inView := func(v rpView, prefix string) []string {
+			var ks []string
+			for k := range model {
+				if len(k) >= len(v.realm)+len(prefix) && k[:len(v.realm)+len(prefix)] == v.realm+prefix {
+					ks = append(ks, k[len(v.realm):])
+				}
+			}
+			sort.Strings(ks)
+			return ks
+		}
+		for step := 0; step < 25; step++ {
+			v := views[rng.Intn(len(views))]
+			key := alphabet[rng.Intn(len(alphabet))]
+			full := v.realm + key
+			switch rng.Intn(9) {
+			case 0, 1:
+				val := []byte(alphabet[rng.Intn(len(alphabet))])
+				buf := append([]byte{}, val...)
+				desc += "Set(" + v.realm + "|" + key + ") "
+				if err := v.st.Set([]byte(key), buf); err != nil {
+					fail("%s: %v", desc, err)
+				}
+				for i := range buf {
+					buf[i] = 'X' // the caller's buffer is the caller's again
+				}
+				model[full] = val
+			case 2:
+				desc += "Delete(" + v.realm + "|" + key + ") "
+				if err := v.st.Delete([]byte(key)); err != nil {
+					fail("%s: %v", desc, err)
+				}
+				delete(model, full)
+			case 3:
+				desc += "DeletePrefix(" + v.realm + "|" + key + ") "
+				if err := v.st.DeletePrefix([]byte(key)); err != nil {
+					fail("%s: %v", desc, err)
+				}
+				for _, k := range inView(v, key) {
+					delete(model, v.realm+k)
+				}
+			case 4:
+				if rng.Intn(4) == 0 {
+					desc += "Clear(" + v.realm + ") "
+					if err := v.st.Clear(); err != nil {
+						fail("%s: %v", desc, err)
+					}
+					for _, k := range inView(v, "") {
+						delete(model, v.realm+k)
+					}
+				}
+			case 5:
+				// a batch: the last operation per key wins on Commit, nothing happens on Cancel
+				b, err := v.st.Batched()
+				if err != nil {
+					fail("%s Batched: %v", desc, err)
+				}
+				pending := map[string][]byte{}
+				for i := 0; i < 4; i++ {
+					k := alphabet[rng.Intn(len(alphabet))]
+					if rng.Intn(3) == 0 {
+						_ = b.Delete([]byte(k))
+						pending[k] = nil
+					} else {
+						val := []byte(alphabet[rng.Intn(len(alphabet))] + "v")
+						_ = b.Set([]byte(k), val)
+						pending[k] = val
+					}
+				}
+				if rng.Intn(3) == 0 {
+					desc += "Batch.Cancel "
+					b.Cancel()
+				} else {
+					desc += "Batch.Commit "
+					if err := b.Commit(); err != nil {
+						fail("%s: %v", desc, err)
+					}
+					for k, val := range pending {
+						if val == nil {
+							delete(model, v.realm+k)
+						} else {
+							model[v.realm+k] = val
+						}
+					}
+				}
+			default:
+			}
+			// observe through every view
+			for _, w := range views {
+				for _, k := range alphabet {
+					want, present := model[w.realm+k]
+					got, err := w.st.Get([]byte(k))
+					has, herr := w.st.Has([]byte(k))
+					if herr != nil || has != present || (present && (err != nil || !bytes.Equal(got, want))) || (!present && !errors.Is(err, kvstore.ErrKeyNotFound)) {
+						fail("%s: view %q Get(%q) = (%q, %v), Has = (%v, %v); the model has (%q, %v)", desc, w.realm, k, got, err, has, herr, want, present)
+					}
+					if present && len(got) > 0 {
+						got[0] ^= 0xff // a returned value is a private copy
+						again, _ := w.st.Get([]byte(k))
+						if !bytes.Equal(again, want) {
+							fail("%s: writing into the value returned by Get(%q) changed the stored value", desc, k)
+						}
+					}
+				}
+				prefix := alphabet[rng.Intn(len(alphabet))]
+				want := inView(w, prefix)
+				for _, dir := range []kvstore.IterDirection{kvstore.IterDirectionForward, kvstore.IterDirectionBackward} {
+					exp := append([]string{}, want...)
+					if dir == kvstore.IterDirectionBackward {
+						sort.Sort(sort.Reverse(sort.StringSlice(exp)))
+					}
+					stopAfter := rng.Intn(len(exp) + 2)
+					var keys, pairs []string
+					if err := w.st.IterateKeys([]byte(prefix), func(k kvstore.Key) bool { keys = append(keys, string(k)); return len(keys) < stopAfter }, dir); err != nil {
+						fail("%s IterateKeys: %v", desc, err)
+					}
+					if err := w.st.Iterate([]byte(prefix), func(k kvstore.Key, val kvstore.Value) bool {
+						if !bytes.Equal(val, model[w.realm+string(k)]) {
+							fail("%s: view %q Iterate hands out (%q, %q), the model has %q", desc, w.realm, k, val, model[w.realm+string(k)])
+						}
+						if len(val) > 0 {
+							val[0] ^= 0xff // what the consumer gets is a private copy
+							if again, _ := w.st.Get(k); !bytes.Equal(again, model[w.realm+string(k)]) {
+								fail("%s: writing into the value Iterate handed out for %q changed the stored value", desc, k)
+							}
+						}
+						pairs = append(pairs, string(k))
+						return len(pairs) < stopAfter
+					}, dir); err != nil {
+						fail("%s Iterate: %v", desc, err)
+					}
+					n := stopAfter
+					if n > len(exp) || n == 0 {
+						if n == 0 && len(exp) > 0 {
+							n = 1 // the consumer is asked at least once and stops there
+						} else {
+							n = len(exp)
+						}
+					}
+					if len(keys) != n || len(pairs) != n {
+						fail("%s: view %q prefix %q direction %d, consumer stops after %d: IterateKeys handed out %v, Iterate %v, the keys are %v", desc, w.realm, prefix, dir, stopAfter, keys, pairs, exp)
+					}
+					for i := 0; i < n; i++ {
+						if keys[i] != exp[i] || pairs[i] != exp[i] {
+							fail("%s: view %q prefix %q direction %d: IterateKeys %v, Iterate %v, expected %v", desc, w.realm, prefix, dir, keys, pairs, exp[:n])
+						}
+					}
+				}
+			}
+		}
+		// after Close everything fails with ErrStoreClosed, on every view
+		pre, _ := views[len(views)-1].st.Batched()
+		if err := root.Close(); err != nil {
+			fail("Close: %v", err)
+		}
+		for _, w := range views {
+			_, e1 := w.st.Get([]byte("a"))
+			_, e2 := w.st.Has([]byte("a"))
+			e3 := w.st.Set([]byte("a"), []byte("x"))
+			e4 := w.st.Delete([]byte("a"))
+			e5 := w.st.DeletePrefix([]byte("a"))
+			e6 := w.st.Clear()
+			e7 := w.st.Iterate(nil, func(kvstore.Key, kvstore.Value) bool { return true })
+			e8 := w.st.IterateKeys(nil, func(kvstore.Key) bool { return true })
+			e9 := w.st.Flush()
+			_, e10 := w.st.Batched()
+			_, e11 := w.st.WithRealm([]byte("z"))
+			_, e12 := w.st.WithExtendedRealm([]byte("z"))
+			for i, e := range []error{e1, e2, e3, e4, e5, e6, e7, e8, e9, e10, e11, e12} {
+				if !errors.Is(e, kvstore.ErrStoreClosed) {
+					fail("after Close, operation %d on view %q returned %v instead of ErrStoreClosed", i+1, w.realm, e)
+				}
+			}
+		}
+		if pre != nil {
+			_ = pre.Set([]byte("late"), []byte("x"))
+			if err := pre.Commit(); !errors.Is(err, kvstore.ErrStoreClosed) {
+				fail("Commit of a batch created before Close returned %v after Close", err)
+			}
+		}
+	}
+}
+`
+	return "kvstore", "mapdb", src, true
+}
+
+// C05: concurrent callers on several views - no data race (go test -race), no deadlock (watchdog), reads see whole values
+func replayC05(o *Obligation) (string, string, string, bool) {
+	if !strings.HasPrefix(o.Name, "mapdb.") {
+		return "", "", "", false
+	}
+	src := `package mapdb_test
+
+// govc:race
+
+import (
+	"bytes"
+	"sync"
+	"testing"
+	"time"
+
+	"github.com/iotaledger/hive.go/kvstore"
+	"github.com/iotaledger/hive.go/kvstore/mapdb"
+)
+
+func TestVerifReplay(t *testing.T) {
+	root := mapdb.NewMapDB()
+	va, _ := root.WithRealm([]byte("a"))
+	vb, _ := root.WithExtendedRealm([]byte("a"))
+	views := []kvstore.KVStore{root, va, vb}
+	vals := [][]byte{bytes.Repeat([]byte{0xAA}, 4096), bytes.Repeat([]byte{0x55}, 4096)}
+	var wg sync.WaitGroup
+	stop := make(chan struct{})
+	bad := make(chan string, 16)
+	for w := 0; w < 6; w++ {
+		wg.Add(1)
+		go func(w int) {
+			defer wg.Done()
+			v := views[w%len(views)]
+			for i := 0; ; i++ {
+				select {
+				case <-stop:
+					return
+				default:
+				}
+				switch (w + i) % 7 {
+				case 0, 1:
+					_ = v.Set([]byte{'k', byte(i % 3)}, vals[i%2])
+				case 2:
+					if got, err := v.Get([]byte{'k', byte(i % 3)}); err == nil && !bytes.Equal(got, vals[0]) && !bytes.Equal(got, vals[1]) {
+						select {
+						case bad <- "Get returned a value that no Set ever stored (a mix of two writes)":
+						default:
+						}
+					}
+				case 3:
+					_, _ = v.Has([]byte{'k', byte(i % 3)})
+				case 4:
+					_ = v.IterateKeys(nil, func(kvstore.Key) bool { return true })
+					_ = v.Iterate(nil, func(_ kvstore.Key, val kvstore.Value) bool { return len(val) == 4096 })
+				case 5:
+					b, err := v.Batched()
+					if err == nil {
+						_ = b.Set([]byte{'k', byte(i % 3)}, vals[i%2])
+						_ = b.Delete([]byte{'k', byte((i + 1) % 3)})
+						_ = b.Commit()
+					}
+				case 6:
+					if i%50 == 0 {
+						_ = v.DeletePrefix([]byte{'k'})
+					} else {
+						_ = v.Delete([]byte{'k', byte(i % 3)})
+					}
+				}
+			}
+		}(w)
+	}
+	time.Sleep(600 * time.Millisecond)
+	close(stop)
+	done := make(chan struct{})
+	go func() { wg.Wait(); close(done) }()
+	select {
+	case <-done:
+	case <-time.After(5 * time.Second):
+		t.Fatalf("REPLAY-VIOLATION concurrent callers on three views of one store did not return (deadlock)")
+	}
+	select {
+	case m := <-bad:
+		t.Fatalf("REPLAY-VIOLATION %s", m)
+	default:
+	}
+	// a second batch commit on a view after Close must return, too
+	b1, _ := va.Batched()
+	b2, _ := va.Batched()
+	_ = root.Close()
+	ret := make(chan struct{})
+	go func() { _ = b1.Commit(); _ = b2.Commit(); _, _ = va.Get([]byte("x")); close(ret) }()
+	select {
+	case <-ret:
+	case <-time.After(3 * time.Second):
+		t.Fatalf("REPLAY-VIOLATION operations on a view of a closed store do not return (a lock is never released)")
+	}
+}
+`
+	return "kvstore", "mapdb", src, true
+}
